@@ -1022,3 +1022,74 @@ def batch_items_isolated(ctx, rule, fq, call_pred, what):
                    '%s: a failing item ends the whole batch (the handler is '
                    'not inside the loop / does not cover Exception / leaves '
                    'the loop)' % what, ctx.loc(f, c))
+
+
+def completion_queries_partition(ctx, rule):
+    """The two task queries the completion logic relies on partition the
+    states: `_get_incomplete_task_executions_query` selects exactly the
+    states for which is_completed() is false (a DELAYED task is still
+    pending: leaving it out lets check_and_complete finish the workflow
+    while a retry / wait-before is outstanding), and
+    `_get_completed_task_executions_query` exactly the completed ones."""
+    prog, sd = ctx.prog, ctx.sd
+    DBQ = 'mistral.db.v2.sqlalchemy.api'
+    done = set(sd.pred_set('is_completed'))
+    for name, want, what in (
+            ('_get_incomplete_task_executions_query', set(sd.ALL) - done,
+             'incomplete'),
+            ('_get_completed_task_executions_query', done, 'completed')):
+        f = prog.func(DBQ + '.' + name)
+        got = None
+        for c in own_nodes(f.node):
+            if isinstance(c, ast.Call) and U.call_name(c) == 'in_' and \
+                    isinstance(c.func, ast.Attribute) and \
+                    norm(c.func.value).endswith('.state') and c.args:
+                try:
+                    v = prog.eval_const(f.module,
+                                        U.canon_expr(f.node, c.args[0]))
+                    got = set(v)
+                except Exception:
+                    got = None
+        if got is None:
+            raise AnalysisError('%s: state filter does not fold' % name)
+        rule.check(got == want, ctx.construct(f, extra='exactly the %s '
+                                              'states' % what),
+                   'the %s-task query selects %s; missing %s, extra %s: the '
+                   'workflow completion check counts the wrong tasks'
+                   % (what, sorted(got), sorted(want - got),
+                      sorted(got - want)), ctx.loc(f))
+    # the completion check counts with the incomplete query
+    cf = prog.func(DBQ + '.get_incomplete_task_executions_count')
+    rule.check(any(isinstance(c, ast.Call) and
+                   U.call_name(c) == '_get_incomplete_task_executions_query'
+                   for c in own_nodes(cf.node)),
+               ctx.construct(cf, extra='counts the incomplete query'),
+               'the count used by check_and_complete is not taken from the '
+               'incomplete-task query', ctx.loc(cf))
+
+
+def requires_read_with_defaults(ctx, rule):
+    """`requires` of a reverse-workflow task is only ever read through
+    WorkflowSpec.get_task_requires (task-defaults merged in): a direct
+    TaskSpec.get_requires() outside mistral/lang ignores prerequisites that
+    come from task-defaults (scheduling, data flow)."""
+    prog = ctx.prog
+    n = 0
+    for q, f in sorted(prog.funcs.items()):
+        if f.module.startswith('mistral.lang'):
+            continue
+        for c in own_nodes(f.node):
+            if isinstance(c, ast.Call) and \
+                    isinstance(c.func, ast.Attribute) and \
+                    c.func.attr == 'get_requires':
+                rule.fail(ctx.construct(f, c, extra='requires without '
+                                        'task-defaults'),
+                          '%s reads the task\'s own requires: prerequisites '
+                          'declared in task-defaults are ignored here'
+                          % f.name, ctx.loc(f, c))
+            if isinstance(c, ast.Call) and \
+                    U.call_name(c) == 'get_task_requires':
+                n += 1
+    if n < 3:
+        raise AnalysisError('requires: only %d merged reads found' % n)
+    rule.ok('requires read through get_task_requires :: %d sites' % n)
